@@ -1,10 +1,10 @@
 """C15 check configuration (see lib/props.py for the field meanings)."""
 
 PROP = {
-    "level_text_more": 'Lists are also added through the API in the refresh histories (which contain restarts): the new list must get an identifier, and so a file, of its own; TestVFC15RefreshVsRebuildInProgress runs the real worker goroutine: a forced refresh stores a small version 2 while the rebuild queued by the previous admin call is still compiling a list of 150000-300000 rules, and after all builds have ended version 2 must be in force.',
+    "level_text_more": 'Lists are also added through the API in the refresh histories (which contain restarts): the new list must get an identifier, and so a file, of its own; TestVFC15RefreshVsRebuildInProgress runs the real worker goroutine: a forced refresh stores a small version 2 while the rebuild queued by the previous admin call is still compiling a list of 150000-300000 rules, and after all builds have ended version 2 must be in force. TestVFC15LargeSource covers the size of the source: a block or allow list, served over HTTP (Content-Length or chunked) or read from a local file, gets a small first version and then two versions whose source is 16-112 MiB long (thorough: up to 160 MiB), mostly comments of a drawn length and blank lines, LF or CRLF, with a rule every 9th or 150th line and the rule for the probe name of the version on the last line; forced, scheduled and API refreshes; after each one the oracle of TestVFC15Refresh (file = normal form of the whole source, rules_count, checksum, re-parse, probe names in force) is applied.',
     "pkg": "internal/filtering",
     "files": ["filtering/c15_model_test.go", "filtering/c15_parser_test.go", "filtering/c15_refresh_test.go", "filtering/c15_admin_test.go", "filtering/c15_rebuild_test.go",
-              "filtering/c15_regress_test.go"],
+              "filtering/c15_regress_test.go", "filtering/c15_large_test.go"],
     "level": "exploration",
     "technique": "property-based testing (rapid): reference model of the list normal form and of 'last successfully "
                  "stored list'; fixed-point (round-trip) oracle; stateful histories of refreshes against a scripted "
@@ -42,6 +42,7 @@ PROP = {
         ("TestVFC15Refresh", (300, 1500), {"steps": 8, "shards": (4, 16)}),
         ("TestVFC15RefreshVsAdmin", (120, 800), {"shards": (2, 16)}),
         ("TestVFC15RefreshVsRebuildInProgress", (2, 6), {"shards": (1, 4)}),
+        ("TestVFC15LargeSource", (3, 6), {"shards": (2, 4), "thorough_scale": 1}),
     ],
     "plain": ["TestVFC15RegressOtherKindAllFailed", "TestVFC15RegressFirstRefreshOtherKindFailed",
               "TestVFC15RegressSameKindMixed"],
